@@ -1,16 +1,20 @@
-\* C20 handle phase: 2 racing initialisers (try_init_slot / init_slot), 1 observer with one
-\* operation out of {is_enabled, probe}; the successful initialiser makes up to 2 operations
-\* through its Init handle out of {h_probe, h_flush, h_guard_drop}; all interleavings.
+\* C20 handle phase: 2 racing initialisers (try_init_slot / init_slot / AmbientSlot::init), each
+\* building its configuration in one of the Setup forms emit_to, and_emit_to, emit_to + and_emit_to resp. the
+\* Runtime forms build, init_runtime over two emitters (one form of each class (destinations, budget split);
+\* the trace check SlotTrace.cfg has all eight); 1 observer with one operation out of {probe, flush}; a Setup-form initialiser
+\* makes up to 2 operations through what it was handed out of {h_probe, h_flush, h_guard_drop,
+\* h_guard_unwind} (a loser: the guard operations only); all interleavings.
 SPECIFICATION Spec
 CONSTANTS
     Inits = {1, 2}
     Observers = {1}
-    InitKinds = {"try_init_slot", "init_slot"}
-    ObsOps = {"is_enabled", "probe"}
+    InitKinds = {"try_init_slot", "init_slot", "slot_init"}
+    ObsOps = {"probe", "flush"}
     MaxObs = 1
-    HandleOps = {"h_probe", "h_flush", "h_guard_drop"}
+    Forms = {"emit_to", "and_emit_to", "emit_to_and", "build", "init_runtime_and"}
+    HandleOps = {"h_probe", "h_flush", "h_guard_drop", "h_guard_unwind"}
     MaxHandle = 2
     Design = "oncelock"
 INVARIANTS TypeOK AtMostOneWinner ExactlyOneWinner LosersNeverReceive AllFiveTogether
-    EnabledMeansInstalled InertBefore Stable HandleIsInstalled
+    EnabledMeansInstalled InertBefore Stable HandleIsInstalled GuardInertWhenLost WholeEmitter
 CHECK_DEADLOCK FALSE
